@@ -425,6 +425,8 @@ def lower_bytes_expr(t, out: List[Emit], atoms: Atoms, opaque_calls=False):
         if base in ('bytes', 'bytearray') and len(pos) == 1:
             lower_bytes_expr(pos[0], out, atoms, opaque_calls)
             return
+        if base in ('bytes', 'bytearray') and not pos and not kw:
+            return  # an empty buffer to accumulate into
         if opaque_calls:
             out.append(Emit('bytes', None, t))
             return
@@ -433,6 +435,9 @@ def lower_bytes_expr(t, out: List[Emit], atoms: Atoms, opaque_calls=False):
         return
     if k == 'pure' and t[1] in ('encode',):
         out.append(Emit('bytes', None, t[2]))
+        return
+    if k == 'pure' and t[1] in ('bytes', 'bytearray') and t[2] is None and len(t[3]) == 1:
+        lower_bytes_expr(t[3][0], out, atoms, opaque_calls)  # a copy of the accumulated buffer
         return
     raise LayoutError('bytes expression outside the idiom table: %s' % fmt_term(t))
 
